@@ -228,8 +228,12 @@ class DotRenderer:
         )
 
         op = hugr[node].op
-        if isinstance(op, AsExtOp) and not self.config.qualify_op_name:
-            op_name = op.op_def().name
+        if isinstance(op, AsExtOp):
+            # qualification only prepends the extension name
+            op_def = op.op_def()
+            op_name = (
+                op_def.qualified_name() if self.config.qualify_op_name else op_def.name
+            )
         else:
             op_name = op.name()
         if hugr.children(node):
